@@ -151,6 +151,9 @@ def runOp (args impl : List String) : Option (String × String) := do
       else "ok"
     else if prop = "C09" then
       if out "cadence" ≠ "ok" then s!"FAIL evaluation-earlier-than-one-per-interval-{out "cadence"}"
+      -- the tick loop is one goroutine: an evaluation that takes longer than the interval delays the next one, it never
+      -- runs beside it (the rate functions keep state between calls)
+      else if n "evaloverlap" > 0 then "FAIL rate-function-evaluated-while-an-earlier-evaluation-was-still-running"
       else if stageEarly then "FAIL stage-of-a-config-file-ticks-before-its-scheduled-start"
       else if an "intervalms" "0" > 0 ∧ n "evals" > 1 + n "ret" / an "intervalms" "0" then "FAIL more-evaluations-than-one-plus-elapsed-over-interval"
       else if n "evals" < 1 ∧ arg "mode" "constant" ≠ "users" ∧ arg "mode" "constant" ≠ "file" ∧ ¬setupFailed then "FAIL no-immediate-evaluation"
